@@ -891,6 +891,9 @@ class Parser(object):
                         line.lower().startswith(kw.lower())):
                     # -- CASE: Line does not start w/ a step-keyword.
                     continue
+                if self._has_better_step_keyword(kw, line):
+                    # -- CASE: "Lè sa a " (then) wins over "Lè " (when).
+                    continue
 
                 # -- HINT: Trailing SPACE is used for most keywords.
                 # BUT: Keywords in some languages (like Chinese, Japanese, ...)
@@ -920,6 +923,21 @@ class Parser(object):
                                   keyword, step_type, step_text_after_keyword)
                 return step
         return None
+
+    def _has_better_step_keyword(self, kw, line):
+        """Another step keyword matches the line better than this one:
+        A longer one or one of same length that matches w/o lowercasing.
+        """
+        for step_type in ("given", "when", "then", "and", "but"):
+            for other in self.keywords[step_type]:
+                if len(other) > len(kw):
+                    if (line.startswith(other) or
+                            line.lower().startswith(other.lower())):
+                        return True
+                elif (len(other) == len(kw) and line.startswith(other) and
+                      not line.startswith(kw)):
+                    return True
+        return False
 
     def _select_last_background_step_type(self):
         # -- CASES:
